@@ -24,7 +24,7 @@ func init() {
 		Rule: "the daemon starts on an events output that already holds 0-3 earlier events (restart); 2-6 sessions with 0-6 actions each delivered as bursts on both pipes at once (everything within 0-300 ms of simulated time, taped chunking / short reads / buffer sizes), " +
 			"schedule policies random / PCT / biased / run-to-block with a scheduling point inside every output write and between every write and hand-off; monitor per write call: exactly one JSON event + newline, " +
 			"no event written twice, every UserAction preceded by the UserLogin with the same subjects.pid; afterwards the file content (O_APPEND / no-O_APPEND semantics of the simulated file) keeps the earlier events and consists of whole JSON lines; thorough tier additionally under the race detector; " +
-			"l3-stalled-output: one output write (taped, among the first) stalls for 1-4 simulated seconds (slow or hung disk) while a session that held 30-540 events gets its login and another session is busy; same monitors; " +
+			"l3-stalled-output: one output write (taped, among the first) stalls for 1-9 simulated seconds (slow or hung disk) while a session that held 30-540 events gets its login and another session is busy; same monitors; " +
 			"non-trivial = both pipelines wrote and at least one preemption happened; distinct = distinct (history hash, schedule hash)",
 		Quick: 8000, Thorough: 250000,
 		Race: true, RaceQuick: 96, RaceThorough: 8000,
@@ -74,7 +74,10 @@ func scnC10gen(level int, stalled bool) scenarioFn {
 		if stalled {
 			h = genStalledOutputHistory(rc.Spec)
 			stallAt = 1 + rc.Spec.Choose(6, "stall.at")
-			stallFor = time.Duration(1000+rc.Spec.Choose(3000, "stall.ms")) * time.Millisecond
+			if rc.Spec.Choose(3, "stall.late") == 2 {
+				stallAt = 7 + rc.Spec.Choose(60, "stall.at.late") // somewhere in the burst
+			}
+			stallFor = time.Duration(1000+rc.Spec.Choose(8000, "stall.ms")) * time.Millisecond
 		} else {
 			h = genHistory(rc.Spec, c)
 		}
